@@ -67,6 +67,35 @@ theorem addArray_value {R : Type} (F : NV.C03.FloatOps R) (H : Heap (NV.C03.Valu
       = .ok (.arr ((addArray H ap ar af).1 (addArray H ap ar af).2).items) := by
   rw [(addArray_refines H ap ar af h).1]; rfl
 
+/-- the contract of slice_array in terms of values -/
+def SliceGood (H : Heap V) (ap af : Nat) (frm to : Int) (R : Heap V × Nat) : Prop :=
+  (R.1 R.2).items = sliceItems (H ap).items frm to ∧
+  (R.1 R.2).ref = 1 ∧
+  (R.2 = af ∨ (H ap).ref = 1) ∧
+  ∀ a, a ≠ R.2 → a ≠ af →
+    (R.1 a).ref = (H a).ref - (if a = ap then 1 else 0) ∧
+    (0 < (H a).ref - (if a = ap then 1 else 0) → (R.1 a).items = (H a).items)
+
+/-- **slice_array refines the value-level range** for every heap, operand, reference count and pair of bounds (also the
+    full-extent and the empty selection): the result holds the selected elements with one reference; it is a NEW block unless
+    the consumed reference was the only one; the operand, when somebody still holds it, keeps its elements and loses exactly
+    one reference.  (`a[0..]` of an array held in a variable is therefore never the array itself.) -/
+theorem sliceArray_refines (H : Heap V) (ap af : Nat) (frm to : Int) (hp : 1 ≤ (H ap).ref) (hf : af ≠ ap) :
+    SliceGood H ap af frm to (sliceArray H ap af frm to) := by
+  have hf' : ¬ ap = af := fun e => hf e.symm
+  unfold sliceArray SliceGood
+  dsimp only
+  (repeat' split) <;> (refine ⟨?_, ?_, ?_, fun a ha haf => ?_⟩) <;>
+    (try (by_cases e : a = ap)) <;>
+    simp_all [upd, decRef, freed, sliceItems, NV.Gen.C03.sliceArrayReuse] <;>
+    (try omega)
+
+/-- the selection of the heap model is the operator-level `LpcOps.sliceArray` (= `Spec.slice`, `sliceArray_eq_slice`) -/
+theorem sliceItems_eq {α : Type} (l : List α) (frm to : Int) : sliceItems l frm to = NV.C03.LpcOps.sliceArray l frm to := rfl
+
+example : ((sliceArray (fun _ => (⟨2, [1, 2, 3]⟩ : Cell Nat)) 0 1 0 2).2, ((sliceArray (fun _ => (⟨2, [1, 2, 3]⟩ : Cell Nat)) 0 1 0 2).1 0).ref)
+    = (1, 1) := by decide
+
 end NV.C03.Heap
 
 namespace NV.C03
